@@ -271,7 +271,8 @@ class Reporter:
     def match(self, witness_keys, clause):
         """witness_keys: strings identifying the failing case (e.g. a matcher tag or case name)."""
         for f in self.entries:
-            if f.get("clause") not in (None, "*", clause) and clause not in f.get("clauses", []):
+            cl = list(f.get("clauses") or []) + ([f["clause"]] if f.get("clause") else [])
+            if cl and "*" not in cl and clause not in cl:
                 continue
             if any(re.fullmatch(w, k) for w in f.get("witness", []) for k in witness_keys):
                 return f
